@@ -783,15 +783,18 @@ class UniformTime(np.ndarray, TimeInterface):
             You can either use += on the full array, OR
             create a new TimeArray from this UniformTime""")
 
-    def _convert_and_check_uniformity(self, val, sign=1):
-        # look at the units - convert the values to what they need to be (in
-        # the base_unit) and then delegate to the ndarray.__iadd__
+    def _convert_and_check_uniformity(self, val):
+        """Returns the operand in the base unit and the change it makes to
+        the sampling interval; neither the operand nor self are changed"""
         if not hasattr(val, '_conversion_factor'):
+            # bare numbers are in the time unit of this object; the scaled
+            # values are a new array, the caller's operand stays as it was
             val = np.asarray(val)
-            if getattr(val, 'dtype', None) == np.int32:
-                # we'll overflow if val's dtype is np.int32
-                val = np.array(val, dtype=np.int64)
-            val *= self._conversion_factor
+            if issubclass(val.dtype.type, np.integer):
+                # (also avoids the overflow of int32 operands)
+                val = val.astype(np.int64)
+            val = val * self._conversion_factor
+        d_interval = 0
         if hasattr(val, 'ndim') and val.ndim == 1:
             # we have to check that adding this will preserve uniformity
             dv = np.diff(val)
@@ -802,20 +805,29 @@ class UniformTime(np.ndarray, TimeInterface):
                     interval between them in order to preserve uniformity.
                     Uniformity is broken at these indices: %s
                     """ %str(uniformity_breaks))
-            # adding a ramp widens the interval, subtracting one narrows it:
-            self.sampling_interval += sign * dv[0]
+            d_interval = dv[0]
+        return val, d_interval
+
+    def _change_interval(self, d_interval):
+        if d_interval != 0:
+            self.sampling_interval += d_interval
             self.sampling_rate = Frequency(1.0 / (float(self.sampling_interval) /
                                         time_unit_conversion[self.time_unit]),
                                         time_unit=self.time_unit)
-        return val
 
     def __iadd__(self, val):
-        val = self._convert_and_check_uniformity(val)
-        return np.ndarray.__iadd__(self, val)
+        val, d_interval = self._convert_and_check_uniformity(val)
+        # numpy refuses operands of the wrong shape or type here, before any
+        # attribute has been touched:
+        np.ndarray.__iadd__(self, val)
+        self._change_interval(d_interval)
+        return self
 
     def __isub__(self, val):
-        val = self._convert_and_check_uniformity(val, sign=-1)
-        return np.ndarray.__isub__(self, val)
+        val, d_interval = self._convert_and_check_uniformity(val)
+        np.ndarray.__isub__(self, val)
+        self._change_interval(-d_interval)
+        return self
 
     def __imul__(self, val):
         np.ndarray.__imul__(self, val)
